@@ -55,7 +55,7 @@ def _run_gen(ctx, name, module, cfgwriter, tag, *, simulate=None, depth=None, ti
         ctx.add_tlc(r)
     seen, out = set(), []
     for v in r.values:
-        if not (isinstance(v, dict) and v.get("kind") in ("rt", "file")):
+        if not (isinstance(v, dict) and v.get("kind") in ("rt", "file", "ser")):
             continue
         key = json.dumps(v, sort_keys=True)
         if key in seen:
@@ -235,6 +235,10 @@ def execute_and_judge(ctx, vh, cases, name="main"):
 
 def signature(f):
     why = "+".join(f["why"]) or "-"
+    if f.get("series"):
+        if f["cls"] and "-" not in f["cls"]:
+            return "%s/%s" % (f["pred"], "+".join(f["cls"]))
+        return "%s/%s/%s/series-%s" % (f["pred"], why, f["fmt"], f["series"])
     if f["cls"] and "-" not in f["cls"]:   # classes of known deviations explain the rejection exactly (TracePly)
         return "%s/%s" % (f["pred"], "+".join(f["cls"]))
     return "%s/%s/%s" % (f["pred"], why, f["fmt"])
@@ -322,6 +326,113 @@ def file_counters(cases, raw):
     n["enc_lines"] = len(enc)
     n["read_ok"] = sum(1 for e in enc if e["rd"] == "OK")
     return n
+
+
+# --------------------------------------------------------------------------
+# series cases (PlySeries / PlySeriesGen / TracePlySeries): size ladder, delivery, exact 8-bit values
+# --------------------------------------------------------------------------
+
+def series_cfg(path, sizes, dlvsizes, bytesizes, bigfaces):
+    with open(path, "w") as f:
+        f.write("CONSTANTS\n  Sizes = %s\n  DlvSizes = %s\n  ByteSizes = %s\n  BigFaces = %d\n" %
+                (_set(sizes), _set(dlvsizes), _set(bytesizes), bigfaces))
+        f.write("SPECIFICATION Spec\nINVARIANTS ModelLayouts ModelIdentifies ModelUnitBits Emit\nCHECK_DEADLOCK FALSE\n")
+
+
+def gen_series(ctx, via):
+    seed, quick = ctx.seed, ctx.tier == "quick"
+    extra = [12289, 8191, 8192, 16385, 4098]
+    if quick:
+        sizes = [255, 257, 4095, 4096, 4097, 8193, extra[seed % 5]]
+        dlvsizes = [7, 300 + seed % 7]
+        bytesizes = [256, 301 + 2 * (seed % 50)]
+        bigfaces = 600 + seed % 5
+    else:
+        sizes = [1, 2, 3, 255, 256, 257, 1023, 1025, 2049, 4095, 4096, 4097, 16383, 20481, 32769, 8193] + extra
+        dlvsizes = [1, 7, 64, 300 + seed % 7, 1400 + seed % 11]
+        bytesizes = [256, 301 + 2 * (seed % 50), 512, 1025]
+        bigfaces = 1500 + seed % 5
+    cases, r = _run_gen(ctx, "series", "PlySeriesGen",
+                        lambda p: series_cfg(p, sizes, dlvsizes, bytesizes, bigfaces), "series")
+    cases = [c for c in cases if c["ser"]["via"] == via]
+    return cases, {"series_states": r.distinct, "series_cases": len(cases), "series_sizes": sorted(sizes)}
+
+
+def judge_series(ctx, raw, name):
+    findings = []
+    results = core.validate_sharded(ctx, name, "TracePlySeries", "TracePlySeries.cfg", raw,
+                                    is_boundary=lambda ln: True, timeout=3000, heap="4g")
+    for sh, r in results:
+        for v in r.values:
+            if not (isinstance(v, dict) and "bad" in v):
+                continue
+            ln = json.loads(sh[v["l"] - 1])
+            s = ln["ser"]
+            for b in v["bad"]:
+                findings.append({"pred": b["p"], "id": v["id"], "why": sorted(b.get("why", [])), "cls": sorted(b.get("cls", [])),
+                                 "fmt": s["fmt"], "wr": ln.get("wr", ""), "rd": ln.get("rd", ""),
+                                 "werr": ln.get("werr", ""), "rerr": ln.get("rerr", ""), "at": b.get("at", -1),
+                                 "n": s["n"], "series": s["dlv"]["kind"] + (str(s["dlv"]["k"]) if s["dlv"]["k"] else "")})
+    return findings
+
+
+def series_counters(cases, raw):
+    n = {"cases": len(cases), "beyond_4096_binary": 0, "beyond_8192_binary": 0, "bits_mode": 0, "int_count_binary": 0,
+         "quads": 0, "deliveries": {}, "entry_load": 0}
+    for c in cases:
+        s = c["ser"]
+        binary = s["fmt"] != "ascii"
+        n["beyond_4096_binary"] += binary and s["n"] > 4096
+        n["beyond_8192_binary"] += binary and s["n"] > 8192
+        n["bits_mode"] += c["mode"] == "bits"
+        n["int_count_binary"] += binary and s["faces"]["on"] and s["faces"]["ct"] in ("int", "uint")
+        n["quads"] += s["faces"]["on"] and s["faces"]["quads"]
+        k = s["dlv"]["kind"] + (str(s["dlv"]["k"]) if s["dlv"]["k"] else "")
+        n["deliveries"][k] = n["deliveries"].get(k, 0) + 1
+        n["entry_load"] += s["dlv"]["kind"] == "file"
+    n["read_ok"] = sum(1 for x in raw if '"rd":"OK"' in x)
+    n["records_judged"] = sum(c["ser"]["n"] for c in cases)
+    return n
+
+
+def run_series(ctx, vh, prop, name="series"):
+    """Series stage of a check: returns (cases, findings, raw)."""
+    cases, notes = gen_series(ctx, "write" if prop == "C04" else "ref")
+    for i, c in enumerate(cases):
+        c["id"] = i
+    raw = execute(ctx, vh, cases, name)
+    if len(raw) != len(cases):
+        raise core.Infra("series: %d trace lines for %d cases" % (len(raw), len(cases)))
+    findings = judge_series(ctx, raw, name)
+    ctx.traces += len(cases)
+    ctx.evaluations += len(raw)
+    ctx.extra.update(notes)
+    counters = series_counters(cases, raw)
+    ctx.extra["series_counters"] = counters
+    for k in ("beyond_4096_binary", "beyond_8192_binary", "bits_mode", "read_ok"):
+        if counters[k] == 0:
+            raise core.Infra("vacuity guard (series): no case exercised %s" % k)
+    if prop == "C08" and (counters["int_count_binary"] == 0 or len(counters["deliveries"]) < 8):
+        raise core.Infra("vacuity guard (series): deliveries / 4-byte list counts not exercised")
+    return cases, findings, raw
+
+
+def report_series(ctx, prop, cases, findings):
+    per_sig = ctx.extra.setdefault("rejections_per_signature", {})
+    for f in findings:
+        c = cases[f["id"]]
+        if f["pred"].startswith("Harness."):
+            raise core.Infra("harness inconsistency %s on series case %d: %s" % (f["pred"], f["id"], json.dumps(strip(c))[:1500]))
+        if not f["pred"].startswith(prop + "."):
+            continue
+        sig = signature(f)
+        per_sig[sig] = per_sig.get(sig, 0) + 1
+        if per_sig[sig] > 1:
+            continue
+        what = "%s rejected a series case (plan %s, %d records, %s, delivery %s, first differing record %d): %s; wr=%s rd=%s %s%s" % (
+            f["pred"], c.get("plan"), f["n"], f["fmt"], f["series"], f["at"], ",".join(f["why"]) or "-", f["wr"], f["rd"],
+            f["werr"][:120], f["rerr"][:120])
+        ctx.violation(sig, what, {"family": "ply", "case": strip(c), "fmt": f["fmt"]})
 
 
 # --------------------------------------------------------------------------
@@ -420,10 +531,11 @@ def run_family(ctx, prop):
     cases, notes = (gen_rt if kind == "rt" else gen_file)(ctx, vh)
     findings, raw = execute_and_judge(ctx, vh, cases)
     ctx.extra.update(notes)
+    scases, sfindings, sraw = run_series(ctx, vh, prop)
     counters = (rt_counters if kind == "rt" else file_counters)(cases, raw)
     ctx.extra["counters"] = counters
     keyset = {json.dumps(strip(c), sort_keys=True) for c in cases}
-    ctx.nontrivial = len(keyset)
+    ctx.nontrivial = len(keyset) + len(scases)
     if kind == "rt":
         ctx.rule = ("cases = (mesh, writer options) x 3 encodings: TLC BFS of PlyGenRT (every index list over small "
                     "shapes; fixed welded shapes x attribute subsets; all option sets), TLC -simulate walks, seeded "
@@ -461,6 +573,7 @@ def run_family(ctx, prop):
         ctx.violation(sig, what, {"family": "ply", "case": strip(c), "fmt": f["fmt"]})
     ctx.extra["flags_for_other_properties"] = other
     ctx.extra["rejections_per_signature"] = per_sig
+    report_series(ctx, prop, scases, sfindings)
     if "execution_aborted" in ctx.extra and not any("TIMEOUT" in s for s in per_sig):
         raise core.Infra("execution was aborted after repeated timeouts but no TIMEOUT was judged: " +
                          ctx.extra["execution_aborted"])
@@ -480,7 +593,12 @@ def replay_family(ctx, prop, path):
         obj = json.load(f)
     case = obj["case"]["case"]
     vh = core.build_vh()
-    findings, raw = execute_and_judge(ctx, vh, [case], name="replay")
+    if case.get("kind") == "ser":
+        case["id"] = 0
+        raw = execute(ctx, vh, [case], "replay")
+        findings = judge_series(ctx, raw, "replay")
+    else:
+        findings, raw = execute_and_judge(ctx, vh, [case], name="replay")
     for f in findings:
         print("replay: %s on %s (%s) wr=%s rd=%s %s%s" % (f["pred"], f["fmt"], ",".join(f["why"]), f["wr"], f["rd"],
                                                            f["werr"], f["rerr"]))
